@@ -59,21 +59,43 @@ func stripPayload(kind, s string) (lines []string, key string) {
 
 var payloadKinds = []string{"cal", "topojson", "burnin", "calib", "defcalib", "errmsg", "msg"}
 
-// pass-through string fields
-func stripField(kind, s string) []string {
-	in := func(t *rwp.HWCText) []string {
-		return helpers.InboundMessagesToRawPanelASCIIstrings([]*rwp.InboundMessage{{States: []*rwp.HWCState{{HWCIDs: []uint32{7}, HWCText: t}}}})
-	}
-	pi := func(p *rwp.PanelInfo) []string {
-		return helpers.OutboundMessagesToRawPanelASCIIstrings([]*rwp.OutboundMessage{{PanelInfo: p}})
+// pass-through string fields. A kind is one part or several parts joined by "+": every part is one message of ONE
+// encoder call (so `model+oev` is a two-message outbound call whose first message carries the string in PanelInfo.Model
+// and whose last message is an event). Parts that carry the string: the 12 field kinds + `inall` / `outall` (the string
+// in every pass-through field of one message); parts that carry no string at all ("fillers"): iack, ist, icmd, ireg
+// (inbound) and oev, oack, osleep, ohb, omap (outbound).
+func stripMsgIn(kind, s string) *rwp.InboundMessage {
+	tx := func(t *rwp.HWCText) *rwp.InboundMessage {
+		return &rwp.InboundMessage{States: []*rwp.HWCState{{HWCIDs: []uint32{7}, HWCText: t}}}
 	}
 	switch kind {
 	case "title":
-		return in(&rwp.HWCText{Title: s, IntegerValue: 5})
+		return tx(&rwp.HWCText{Title: s, IntegerValue: 5})
 	case "line1":
-		return in(&rwp.HWCText{Textline1: s, Formatting: 7})
+		return tx(&rwp.HWCText{Textline1: s, Formatting: 7})
 	case "line2":
-		return in(&rwp.HWCText{Textline2: s, Title: "T", PairMode: 1})
+		return tx(&rwp.HWCText{Textline2: s, Title: "T", PairMode: 1})
+	case "regin":
+		return &rwp.InboundMessage{Registers: []*rwp.Register{{Reg: rwp.Register_MEM, Id: s, Value: 3}}}
+	case "inall":
+		return &rwp.InboundMessage{
+			States:    []*rwp.HWCState{{HWCIDs: []uint32{7, 8}, HWCText: &rwp.HWCText{Title: s, Formatting: 7, Textline1: s, Textline2: s, PairMode: 1}}},
+			Registers: []*rwp.Register{{Reg: rwp.Register_MEM, Id: s, Value: 3}, {Reg: rwp.Register_FLAG, Id: s, Value: 1}}}
+	case "iack":
+		return &rwp.InboundMessage{FlowMessage: rwp.InboundMessage_ACK}
+	case "ist":
+		return &rwp.InboundMessage{States: []*rwp.HWCState{{HWCIDs: []uint32{9}, HWCMode: &rwp.HWCMode{State: 4}}}}
+	case "icmd":
+		return &rwp.InboundMessage{Command: &rwp.Command{ClearAll: true}}
+	case "ireg":
+		return &rwp.InboundMessage{Registers: []*rwp.Register{{Reg: rwp.Register_STATE, Id: "2", Value: 1}}}
+	}
+	return nil
+}
+
+func stripMsgOut(kind, s string) *rwp.OutboundMessage {
+	pi := func(p *rwp.PanelInfo) *rwp.OutboundMessage { return &rwp.OutboundMessage{PanelInfo: p} }
+	switch kind {
 	case "model":
 		return pi(&rwp.PanelInfo{Model: s})
 	case "serial":
@@ -87,16 +109,93 @@ func stripField(kind, s string) []string {
 	case "lockedips":
 		return pi(&rwp.PanelInfo{LockedToIPs: []string{"10.0.0.1", s, "x"}})
 	case "connections":
-		return helpers.OutboundMessagesToRawPanelASCIIstrings([]*rwp.OutboundMessage{{Connections: &rwp.Connections{Connection: []string{s, "b"}}}})
-	case "regin":
-		return helpers.InboundMessagesToRawPanelASCIIstrings([]*rwp.InboundMessage{{Registers: []*rwp.Register{{Reg: rwp.Register_MEM, Id: s, Value: 3}}}})
+		return &rwp.OutboundMessage{Connections: &rwp.Connections{Connection: []string{s, "b"}}}
 	case "regout":
-		return helpers.OutboundMessagesToRawPanelASCIIstrings([]*rwp.OutboundMessage{{Registers: []*rwp.Register{{Reg: rwp.Register_SHIFT, Id: s, Value: 3}}}})
+		return &rwp.OutboundMessage{Registers: []*rwp.Register{{Reg: rwp.Register_SHIFT, Id: s, Value: 3}}}
+	case "outall":
+		return &rwp.OutboundMessage{
+			PanelInfo:   &rwp.PanelInfo{Model: s, Serial: s, SoftwareVersion: s, Name: s, Platform: s, LockedToIPs: []string{s, "10.0.0.2", s}},
+			Connections: &rwp.Connections{Connection: []string{s, "b", s}},
+			Registers:   []*rwp.Register{{Reg: rwp.Register_SHIFT, Id: s, Value: 3}, {Reg: rwp.Register_MEM, Id: s, Value: 4}}}
+	case "oev":
+		return &rwp.OutboundMessage{Events: []*rwp.HWCEvent{{HWCID: 7, Binary: &rwp.BinaryEvent{Pressed: true}}}}
+	case "oack":
+		return &rwp.OutboundMessage{FlowMessage: rwp.OutboundMessage_ACK}
+	case "osleep":
+		return &rwp.OutboundMessage{SleepState: &rwp.SleepState{IsSleeping: true}}
+	case "ohb":
+		return &rwp.OutboundMessage{FlowMessage: rwp.OutboundMessage_PING}
+	case "omap":
+		return &rwp.OutboundMessage{HWCavailability: map[uint32]uint32{3: 1}}
 	}
-	panic("unknown field kind " + kind)
+	return nil
+}
+
+func stripField(kind, s string) []string {
+	parts := strings.Split(kind, "+")
+	if stripMsgIn(parts[0], s) != nil {
+		ms := []*rwp.InboundMessage{}
+		for _, p := range parts {
+			m := stripMsgIn(p, s)
+			if m == nil {
+				panic("unknown inbound field kind " + p)
+			}
+			ms = append(ms, m)
+		}
+		return helpers.InboundMessagesToRawPanelASCIIstrings(ms)
+	}
+	ms := []*rwp.OutboundMessage{}
+	for _, p := range parts {
+		m := stripMsgOut(p, s)
+		if m == nil {
+			panic("unknown field kind " + p)
+		}
+		ms = append(ms, m)
+	}
+	return helpers.OutboundMessagesToRawPanelASCIIstrings(ms)
 }
 
 var fieldKinds = []string{"title", "line1", "line2", "model", "serial", "version", "name", "platform", "lockedips", "connections", "regin", "regout"}
+var fieldKindsIn = []string{"title", "line1", "line2", "regin", "inall"}
+var fieldKindsOut = []string{"model", "serial", "version", "name", "platform", "lockedips", "connections", "regout", "outall"}
+var fillersIn = []string{"iack", "ist", "icmd", "ireg"}
+var fillersOut = []string{"oev", "oack", "osleep", "ohb", "omap"}
+
+// multi-message calls: the string in an EARLIER message and a last message without any string (and the reverse, and
+// a filler on both sides); `inall` / `outall` put it into every pass-through field of one message
+func stripCallKinds() []string {
+	var ks []string
+	add := func(fields, fillers []string) {
+		for _, k := range fields {
+			ks = append(ks, k+"+"+k)
+			for _, f := range fillers {
+				ks = append(ks, k+"+"+f, f+"+"+k, f+"+"+k+"+"+f)
+			}
+		}
+	}
+	add(fieldKindsIn, fillersIn)
+	add(fieldKindsOut, fillersOut)
+	return ks
+}
+
+// a random call of 2..5 messages of one encoder, at least one of them carrying the string
+func randCallKind(r *Rng) string {
+	fields, fillers := fieldKindsOut, fillersOut
+	if r.Bool() {
+		fields, fillers = fieldKindsIn, fillersIn
+	}
+	n := r.Range(2, 5)
+	parts := make([]string, n)
+	for i := range parts {
+		if r.Chance(35) {
+			parts[i] = fields[r.Intn(len(fields))]
+		} else {
+			parts[i] = fillers[r.Intn(len(fillers))]
+		}
+	}
+	parts[r.Intn(n)] = fields[r.Intn(len(fields))]
+	return strings.Join(parts, "+")
+}
 
 func (e *stripExec) Exec(cmd string, a []string) string {
 	if cmd == "strip.json" || cmd == "strip.svg" || cmd == "strip.field" {
@@ -126,6 +225,15 @@ func (e *stripExec) exec1(cmd string, a []string) string {
 		case "strip.field":
 			s := string(unhx(a[1]))
 			res = hxList(stripField(a[0], s)) + ";" + hxList(stripField(a[0], strings.ReplaceAll(s, "\n", " ")))
+		case "strip.wire":
+			if a[0] != "gorwp" {
+				panic("unknown writer " + a[0])
+			}
+			texts := make([]string, len(a)-1)
+			for i := range texts {
+				texts[i] = string(unhx(a[i+1]))
+			}
+			res = stripWireGorwp(texts)
 		default:
 			panic("unknown record " + cmd)
 		}
@@ -198,8 +306,17 @@ func genC07(r *Rng, n int, tier string) {
 		emit("strip.json", payloadKinds[r.Intn(len(payloadKinds))], []byte(long))
 		emit("strip.svg", []byte("<svg>\n<path d=\""+strings.Repeat("M1 2 ", ln/5)+"\"/>\n</svg>"))
 	}
+	// multi-message calls of both encoders (one `strip.field` record = one encoder call)
+	for _, k := range stripCallKinds() {
+		emit("strip.field", k, []byte("a\nb"))
+	}
+	for _, s := range []string{"\n", "x\r\n y\n", "tail\n"} {
+		for _, k := range []string{"outall+oev", "outall+oack+osleep", "oev+outall+ohb", "inall+iack", "inall+ist+icmd", "ist+inall+ireg"} {
+			emit("strip.field", k, []byte(s))
+		}
+	}
 	// the same strings on the wire: ASCII-mode client against a scripted panel; the LF-split stream must be the encoder's strings
-	genC07Wire(r)
+	genC07Wire(r, c07WireTexts)
 	for i := 0; i < n; i++ {
 		l := r.Range(0, 40)
 		switch r.Intn(3) {
@@ -211,12 +328,21 @@ func genC07(r *Rng, n int, tier string) {
 			emit("strip.field", fieldKinds[r.Intn(len(fieldKinds))], []byte(randText(r, r.Range(0, 12), false)))
 		}
 	}
+	// both ASCII writers with texts a writer could treat specially (format verbs, escapes, separators): ConnectToPanel's
+	// and gorwp's (stripwire.go)
+	genC07Wire(r, swTexts)
+	genC07WireGorwp(r)
+	// random multi-message calls (after the random stream above, so that those records keep their seeds)
+	for i := 0; i < n/4; i++ {
+		emit("strip.field", randCallKind(r), []byte(randText(r, r.Range(0, 12), false)))
+	}
 }
 
 // C07 wire clause: messages whose strings end in / contain white space and line feeds, written by the real ASCII writer.
-func genC07Wire(r *Rng) {
+var c07WireTexts = []string{"ISO ", " lead", "a\nb", "tab\t", "x  ", "\n", "plain", "two\r\nlines "}
+
+func genC07Wire(r *Rng, texts []string) {
 	recs := []ndRec{}
-	texts := []string{"ISO ", " lead", "a\nb", "tab\t", "x  ", "\n", "plain", "two\r\nlines "}
 	for si := 0; si < 4; si++ {
 		msgs := []*rwp.InboundMessage{}
 		for j := 0; j < 6; j++ {
